@@ -16,76 +16,54 @@ def c_unescape(lit):
     return out
 
 
+def _c(comment):
+    """source text quoted inside a Coq comment must not open or close one (nor start a string)"""
+    return comment.replace('(*', '( *').replace('*)', '* )').replace('"', "'")
+
+
 def natlist(name, xs, comment):
-    return 'Definition %s : list nat := [%s].   (* %s *)' % (name, '; '.join(str(x) for x in xs), comment)
+    return 'Definition %s : list nat := [%s].   (* %s *)' % (name, '; '.join(str(x) for x in xs), _c(comment))
 
 
 def generate(repo, emit, src, func_body):
+    import fmt_shapes
     s = src('src/Show.c')
     b = func_body(s, r'int\s+print_to_with\s*\([^)]*\)\s*\{')
-    if not b:
-        for n in ('print_convs', 'print_int_convs', 'print_float_convs', 'print_shape_ok', 'print_pct_skip', 'print_buf_extra'):
+    names = ('print_convs', 'print_int_convs', 'print_float_convs', 'print_dispatch_nul_hits', 'print_shape_ok', 'print_pct_skip', 'print_buf_extra')
+    r = fmt_shapes.parse_print_to_with(b, s) if b else None
+    if not r:
+        for n in names:
             emit(n, None)
     else:
-        # while(not strchr("....", *fmt)) { fmt++; }   -- the conversion characters ending a specification
-        m = re.search(r'while\s*\(\s*not\s+strchr\s*\(\s*"((?:[^"\\]|\\.)*)"\s*,\s*\*fmt\s*\)\s*\)\s*\{\s*fmt\+\+;\s*\}', b)
-        emit('print_convs', natlist('print_convs', c_unescape(m.group(1)), 'source: while(not strchr("%s", *fmt))' % m.group(1)) if m else None)
-        # if (strchr("diouxX", *fmt)) { ... c_int(a) ... }
-        mi = re.search(r'if\s*\(\s*strchr\s*\(\s*"((?:[^"\\]|\\.)*)"\s*,\s*\*fmt\s*\)\s*\)\s*\{[^{}]*c_int\(a\)', b)
-        emit('print_int_convs', natlist('print_int_convs', c_unescape(mi.group(1)), 'source: if (strchr("%s", *fmt)) ... c_int(a)' % mi.group(1)) if mi else None)
-        mf = re.search(r'if\s*\(\s*strchr\s*\(\s*"((?:[^"\\]|\\.)*)"\s*,\s*\*fmt\s*\)\s*\)\s*\{[^{}]*c_float\(a\)', b)
-        emit('print_float_convs', natlist('print_float_convs', c_unescape(mf.group(1)), 'source: if (strchr("%s", *fmt)) ... c_float(a)' % mf.group(1)) if mf else None)
-        # single-character branches and the rest of the shape the model encodes
-        flat = re.sub(r'\s+', ' ', b)
-        shape = [
-            r"if \(\*fmt is '\\0'\) \{ break; \}",
-            r"while\(\*fmt isnt '\\0' and \*fmt isnt '%'\) \{ fmt\+\+; \}",
-            r"if \(start isnt fmt\) \{ memcpy\(fmt_buf, start, fmt - start\); fmt_buf\[fmt - start\] = '\\0'; int off = format_to\(out, pos, fmt_buf\);",
-            r"if \(\*fmt is '%' && \*\(fmt\+1\) is '%'\) \{ int off = format_to\(out, pos, \"%%\"\);",
-            r"memcpy\(fmt_buf, start, fmt - start \+ 1\); fmt_buf\[fmt - start \+ 1\] = '\\0'; if \(index >= len\(args\)\) \{ throw\(FormatError,",
-            r"var a = get\(args, \$I\(index\)\); index\+\+;",
-            r"if \(\*fmt is '\$'\) \{ pos = show_to\(a, out, pos\); \}",
-            r"if \(\*fmt is 's'\) \{ int off = format_to\(out, pos, fmt_buf, c_str\(a\)\);",
-            r"if \(\*fmt is 'c'\) \{ int off = format_to\(out, pos, fmt_buf, c_int\(a\)\);",
-            r"if \(\*fmt is 'p'\) \{ int off = format_to\(out, pos, fmt_buf, a\);",
-            r"pos \+= off; \} fmt\+\+; continue; \}",
-        ]
-        missing = [p for p in shape if not re.search(p, flat)]
-        emit('print_shape_ok', 'Definition print_shape_ok : bool := true.   (* print_to_with has the statement shape Format.v encodes *)'
-             if not missing else None)
-        # fmt += 2 after "%%"
-        mp = re.search(r'format_to\(out, pos, "%%"\);.*?pos \+= off; fmt \+= (\d+); continue;', flat)
-        emit('print_pct_skip', ('Definition print_pct_skip : nat := %s.   (* source: fmt += %s after "%%%%" *)' % (mp.group(1), mp.group(1))) if mp else None)
-        # char* fmt_buf = malloc(strlen(fmt)+1);
-        mb = re.search(r'char\*\s*fmt_buf\s*=\s*malloc\(\s*strlen\(fmt\)\s*(?:\+\s*(\d+))?\s*\)', flat)
-        emit('print_buf_extra', ('Definition print_buf_extra : nat := %s.   (* source: malloc(strlen(fmt)+%s) *)' % (mb.group(1) or '0', mb.group(1) or '0')) if mb else None)
+        emit('print_convs', natlist('print_convs', c_unescape(r['convs']), 'source: a specification ends at the first of "%s" (or the NUL)' % r['convs']))
+        emit('print_int_convs', natlist('print_int_convs', c_unescape(r['int_convs']), 'source: "%s" -> format_to(.., c_int(a))' % r['int_convs']))
+        emit('print_float_convs', natlist('print_float_convs', c_unescape(r['float_convs']), 'source: "%s" -> format_to(.., c_float(a))' % r['float_convs']))
+        emit('print_dispatch_nul_hits', 'Definition print_dispatch_nul_hits : bool := %s.   (* %s *)' % (
+            ('true', 'source: arms tested with strchr(set, c) - the NUL is a hit') if r['nul_hits'] else ('false', 'source: switch on the conversion character - the NUL goes to default')))
+        emit('print_shape_ok', 'Definition print_shape_ok : bool := true.   (* the whole body of print_to_with is a sequence of accepted statement forms: %s *)'
+             % ' '.join(r['forms']))
+        emit('print_pct_skip', 'Definition print_pct_skip : nat := %d.   (* source: fmt += %d after "%%%%" *)' % (r['pct_skip'], r['pct_skip']))
+        emit('print_buf_extra', 'Definition print_buf_extra : nat := %d.   (* source: malloc(strlen(fmt)+%d) *)' % (r['buf_extra'], r['buf_extra']))
 
-    # String_Format_To, generic branch: size = vsnprintf(NULL,0,..); realloc(s->val, pos + size + 1); return vsprintf(s->val + pos, ..)
+    # String_Format_To, generic branch
     st = src('src/String.c')
     fb = func_body(st, r'static\s+int\s+String_Format_To\s*\([^)]*\)\s*\{')
-    ok = None
-    if fb:
-        i = fb.rfind('#else')
-        gen = re.sub(r'\s+', ' ', fb[i:] if i >= 0 else fb)
-        m1 = re.search(r'int size = vsnprintf\(NULL, 0, fmt, va_tmp\);', gen)
-        m2 = re.search(r's->val = realloc\(s->val, pos \+ size(?: \+ (\d+))?\);', gen)
-        m3 = re.search(r'return vsprintf\(s->val \+ pos, fmt, va\);', gen)
-        if not m3:
-            # repaired form (fix: arguments are rendered into a temporary before the String is reallocated):
-            #   char* tmp = malloc(size + 1); vsprintf(tmp, fmt, va); realloc(..., pos + size + 1);
-            #   memcpy(s->val + pos, tmp, size + 1); free(tmp); return size;
-            m3 = (re.search(r'char\* tmp = malloc\(size \+ 1\);', gen) and re.search(r'vsprintf\(tmp, fmt, va\);', gen)
-                  and re.search(r'memcpy\(s->val \+ pos, tmp, size \+ 1\); free\(tmp\); return size;', gen))
-        if m1 and m2 and m3:
-            ok = 'Definition string_fmt_room : nat := %s.   (* source: realloc(s->val, pos + size + %s) then vsprintf(s->val + pos, ...) *)' % (
-                m2.group(1) or '0', m2.group(1) or '0')
-    emit('string_fmt_room', ok)
+    r = fmt_shapes.parse_string_format_to(fb) if fb else None
+    if not r:
+        for n in ('string_fmt_room', 'string_fmt_stack_cap', 'string_fmt_stack_limit'):
+            emit(n, None)
+    else:
+        emit('string_fmt_room', 'Definition string_fmt_room : nat := %d.   (* source (%s form): realloc(s->val, pos + size + %d), text and NUL written at s->val + pos *)'
+             % (r['room'], r['form'], r['room']))
+        emit('string_fmt_stack_cap', 'Definition string_fmt_stack_cap : nat := %d.   (* source: size of the stack buffer the measuring vsnprintf writes into (0 = none) *)' % r['cap'])
+        emit('string_fmt_stack_limit', 'Definition string_fmt_stack_limit : nat := %d.   (* source: texts of size < %d are taken from the stack buffer, the others rendered again on the heap *)'
+             % (r['limit'], r['limit']))
 
     fl = src('src/File.c')
     fb = func_body(fl, r'static\s+int\s+File_Format_To\s*\([^)]*\)\s*\{')
     ok = None
-    if fb and re.search(r'return\s+vfprintf\(f->file,\s*fmt,\s*va\);', fb):
-        ok = 'Definition file_fmt_returns_count : bool := true.   (* source: return vfprintf(f->file, fmt, va); *)'
+    if fb and fmt_shapes.parse_file_format_to(fb):
+        ok = 'Definition file_fmt_returns_count : bool := true.   (* source: the body is `return vfprintf(f->file, fmt, va);` after the closed-file test *)'
     emit('file_fmt_returns_count', ok)
 
 
